@@ -6,14 +6,14 @@ open Dmio
 
 let errno_name = function
   | ENOENT -> "enoent" | ENOTDIR -> "enotdir" | EISDIR -> "eisdir" | EEXIST -> "eexist"
-  | ENOTEMPTY -> "enotempty" | ENAMETOOLONG -> "enametoolong" | EINVAL -> "einval"
+  | ENOTEMPTY -> "enotempty" | ENAMETOOLONG -> "enametoolong" | EINVAL -> "einval" | EXDEV -> "exdev"
   | EIO -> "eio" | ENOSPC -> "enospc" | EACCES -> "eacces" | E404 -> "e404"
-  | EBADLINK -> "ebadlink" | EEMPTYKEY -> "eemptykey" | EOTHER -> "eother"
+  | EBADLINK -> "ebadlink" | EUSED -> "eused" | EEMPTYKEY -> "eemptykey" | EOTHER -> "eother"
 
 let errno_of = function
   | "enoent" -> ENOENT | "enotdir" -> ENOTDIR | "eisdir" -> EISDIR | "eexist" -> EEXIST
   | "enotempty" -> ENOTEMPTY | "enametoolong" -> ENAMETOOLONG | "einval" -> EINVAL
-  | "eio" -> EIO | "enospc" -> ENOSPC | "eacces" -> EACCES | _ -> EOTHER
+  | "eio" -> EIO | "enospc" -> ENOSPC | "eacces" -> EACCES | "exdev" -> EXDEV | _ -> EOTHER
 
 let bytes_of_string (s : string) : n list =
   List.init (String.length s) (fun i -> byte_tab.(Char.code s.[i]))
@@ -96,6 +96,8 @@ let () =
         Printf.printf "%s\treaders_ok\t%s\n" id verdict
       | [id; config; pre; op; keyhex; chunkhex; fault; obs] ->
         let cfg = cfg_of config in
+        (* ",x": the staging directory is on another file system *)
+        let xdev = List.mem "x" (String.split_on_char ',' config) in
         (* putc<n>: Put under a context cancelled after PutStream's check: the same operation to the model *)
         let op = if String.length op > 4 && String.sub op 0 4 = "putc" then "put" else op in
         let key = bytes_of_hex keyhex in
@@ -125,7 +127,7 @@ let () =
             if what = "kill" then FKill j
             else FErr (j, errno_of (snd (split_once ':' what))) in
         let fuel = nat_of_int (List.length chunks' + 40) in
-        let ((f1, pc), log) = run_fault fuel O flt env st.fs_fs (WCreate (O, chunks')) [] in
+        let ((f1, pc), log) = run_fault xdev fuel O flt env st.fs_fs (WCreate (O, chunks')) [] in
         let result = match pc with
           | WDone (Ok _) -> "ok" | WDone (Err e) -> "e:" ^ errno_name e | _ -> "killed" in
         let trace = String.concat ";" (List.map ev_text log) in
@@ -137,7 +139,7 @@ let () =
         let keys =
           let pk = List.fold_left (fun acc (k, _) -> if List.mem k acc then acc else acc @ [k]) [] pres in
           if op <> "abort" && not (List.mem key pk) then pk @ [key] else pk in
-        let vst = { fs_fs = f2; fs_hnd = []; fs_ctr = N.add ctr (n_of_int 1000) } in
+        let vst = { fs_fs = f2; fs_hnd = []; fs_ctr = N.add ctr (n_of_int 1000); fs_str = [] } in
         List.iter (fun k ->
             let ((_, ob), _) = fs_step cfg vst (OGet k) in
             Buffer.add_string vb (";" ^ hex_of_bytes k ^ "=" ^
@@ -146,8 +148,14 @@ let () =
                                    | OErr ENOENT -> "absent"
                                    | OErr e -> "e:" ^ errno_name e
                                    | _ -> "?"))) keys;
-        let ((v1, _), _) = fs_step cfg vst (ONew after_content) in
-        let ((v2, pob), _) = fs_step cfg v1 (OPut (after_key, O)) in
+        (* the further put of the new process (it, too, stages in .temp) *)
+        let aenv = { we_base = cfg.f_base;
+                     we_names = (fun i -> stage_name (N.add vst.fs_ctr (n_of_nat i)));
+                     we_dest = path_for_key cfg after_key; we_kind = WPut;
+                     we_empty_ok = cfg.q_empty_ok; we_exist_fails = cfg.q_mkdir_exist_fails } in
+        let ((fa, apc), _) = run_fault xdev (nat_of_int 60) O FNone aenv f2 (WCreate (O, [after_content])) [] in
+        let pob = match apc with WDone (Ok _) -> OOk | WDone (Err e) -> OErr e | _ -> OPanic in
+        let v2 = { fs_fs = fa; fs_hnd = []; fs_ctr = N.add vst.fs_ctr (n_of_int 1); fs_str = [] } in
         let ((_, gob), _) = fs_step cfg v2 (OGet after_key) in
         Buffer.add_string vb (";put=" ^ (match pob with OOk -> "ok" | OErr e -> "e:" ^ errno_name e | _ -> "?"));
         Buffer.add_string vb (";get=" ^ (match gob with OBytes c -> "b:" ^ hex_of_bytes c | OErr e -> "e:" ^ errno_name e | _ -> "?"));
@@ -161,8 +169,11 @@ let () =
            let find pfx = List.find_opt (fun p -> String.length p >= String.length pfx
                                                     && String.sub p 0 (String.length pfx) = pfx) parts in
            if find "init=" <> Some "init=ok" then add "unusable_init";
-           if find "put=" <> Some "put=ok" then add "unusable_put";
-           if find "get=" <> Some ("get=b:" ^ hex_of_bytes after_content) then add "unusable_get";
+           (* with the staging directory on another file system no put can succeed (EXDEV): the store is
+              then read-only by configuration, not broken by the crash; a put that claims success must read back *)
+           let put_ok = find "put=" = Some "put=ok" in
+           if not put_ok && not (xdev && find "put=" = Some "put=e:exdev") then add "unusable_put";
+           if (put_ok || not xdev) && find "get=" <> Some ("get=b:" ^ hex_of_bytes after_content) then add "unusable_get";
            let content = hex_of_bytes (List.concat chunks') in
            let status k = match find (hex_of_bytes k ^ "=") with
              | Some p -> snd (split_once '=' p) | None -> "missing" in
